@@ -51,11 +51,11 @@ atexit.register(_report_theorem_stats)
 
 def _clear_asked(impl) -> list:
     """the numberings of a case for which the hypotheses of T_C18_clear_view are decided by the model: the first, the
-    last (a scramble where there is one) and two in between of those that went to the model (same block and view,
+    last (a scramble where there is one) and the middle one of those that went to the model (same block and view,
     other numbering / other answer of scipy) — the exact check costs about as much as all other requests of the case"""
     sent = [r for r in impl["results"] if r["simplices"] is not None and r["gap"] >= TIE and len(r["simplices"]) == 12]
     n = len(sent)
-    return [sent[i] for i in sorted({0, n // 3, (2 * n) // 3, n - 1})] if n else []
+    return [sent[i] for i in sorted({0, n // 2, n - 1})] if n else []
 
 
 CLEAR = 1e-3  # margin (difference of unit-normal components) that makes a view "clear"
@@ -486,9 +486,14 @@ class C18(core.Check):
         "the re-orienter model returns the same eight points (each once), its corners lie in the quads the blockMesh "
         "convention names and those quads are made of the best aligned remaining hull triangles, independence from the "
         "initial numbering given the same hull, the 48 relabellings map sides onto sides, and uniqueness of the canonical "
-        "numbering among them. Only validator/oracle-checked: that the returned numbering satisfies Canonical "
-        "(front/top best aligned, all eight triple products positive) and is one of the 48 relabellings of the block in "
-        "clear views (oracle: in every view), and that scipy's hull is a hull."
+        "numbering among them; round 6: in every view in which each pass of the loop has a clear winner (hypotheses "
+        "decided exactly per case by the request c18.clear) the model returns the predicted numbering for every input "
+        "numbering, triangle order and choice of diagonals (T_C18_clear_view, T_C18_canonicalises), it is one of the 48 "
+        "relabellings of the input and right-handed; guards/constants/recipes of the source are regenerated with ast and "
+        "tied to the model (T_C18_tie_*). Only validator/oracle-checked: that the returned numbering satisfies Canonical "
+        "as stated on the side area vectors (the theorem is stated on the hull triangles; the two coincide for planar "
+        "sides), that views without a clear winner give one of the 48 relabellings, and that scipy's hull is a "
+        "triangulation of the six sides (hypothesis of the theorem, decided per case)."
     )
 
     # ------------------------------------------------------------------ generators
